@@ -14,7 +14,8 @@ RULE = ("pipelines of 1..4 requests; one of them carries version x Connection va
         "and optionally by garbage; client half-closing or not; the oracle (from the property text: 'contains' = substring) demands "
         "delivery up to and including the first final request, an answer for each, then end-of-stream, or continued service; "
         "a final request whose announced body (streamed or expected) the client withholds and the application never asks for: "
-        "the answer and then end-of-stream must still reach a client that keeps its own sending side open")
+        "the answer and then end-of-stream must still reach a client that keeps its own sending side open; a client that "
+        "half-closes inside a streamed body; a keep-alive client that pauses 5.6 s (thorough: up to 10 s) between two requests")
 ASSUMPTIONS = ["FIN versus RST when unread input remains is kernel behaviour; a reset after the data counts as end-of-stream"]
 
 CONN = [None, "close", "Close", "keep-alive", "Keep-Alive", "upgrade", "x, close", "keep-alive, close", "x-closed", "foo",
@@ -71,6 +72,34 @@ def gen(tier, rng):
         yield x
     for x in gen_final_withheld(tier, rng):
         yield x
+    # the client closes its sending side in the middle of a streamed body (Content-Length > 1024): whatever the handler
+    # does, the answer and then end-of-stream must follow
+    from convgen import cv_line, action_str
+    for i in range(10 if tier == "quick" else 100):
+        cl = rng.choice([1025, 5000, 70000])
+        sent = rng.choice([0, 1, 500, cl - 1])
+        head = ("POST /hc%d HTTP/1.1\r\nHost: h\r\nContent-Length: %d\r\n\r\n" % (i, cl)).encode()
+        pre = b"" if rng.chance(1, 2) else ("GET /hp%d HTTP/1.1\r\nHost: h\r\n\r\n" % i).encode()
+        reads = rng.choice([[], [(None, 4096)], [(10, 10)]])
+        acts, wu, ws = [], [], []
+        if pre:
+            acts.append(action_str([], respond_str(200, b"ok", True)))
+            wu.append(hx("/hp%d" % i))
+            ws.append("200")
+        fin, st = rng.choice([("D", "500"), ("R200:6f6b:1", "200")])
+        acts.append(action_str(reads, fin))
+        wu.append(hx("/hc%d" % i))
+        ws.append(st)
+        extra = "wu=%s ws=%s we=closed limit=3000" % (j(wu), j(ws))
+        yield cv_line(pre + head + b"y" * sent, acts, eof=True, extra=extra), {"scenario": "half-close-inside-streamed-body"}
+    # a persistent connection on which the client pauses for longer than any plausible built-in time-out before its next
+    # request: nothing ended the connection, so the next request must be served (and nothing unsolicited may arrive)
+    for i in range(1 if tier == "quick" else 4):
+        a = ("GET /idle%da HTTP/1.1\r\nHost: h\r\n\r\n" % i).encode()
+        b = ("GET /idle%db HTTP/1.1\r\nHost: h\r\n\r\n" % i).encode()
+        extra = "wu=%s,%s ws=200,200 we=closed seg=%d gap=%d limit=12000" % (hx("/idle%da" % i), hx("/idle%db" % i), len(a), 5600 + 1500 * i)
+        yield (cv_line(a + b, [action_str([], respond_str(200, b"ok", True))] * 2, transport="u" if i % 2 == 0 else "t", extra=extra),
+               {"scenario": "long-idle-keep-alive"})
     # long-lived keep-alive connections: hundreds of small requests, nothing asks for a close
     for n, hdr in ((250, ""), (40, "User-Agent: Mozilla/5.0 (X11; Linux x86_64) AppleWebKit/537.36\r\nAccept: text/html,application/xhtml+xml;q=0.9,*/*;q=0.8\r\nAccept-Language: en-US,en;q=0.5\r\nCookie: " + "k=v; " * 40 + "\r\n")):
         stream = b"".join(("GET /k%d HTTP/1.1\r\nHost: h\r\n%s\r\n" % (i, hdr)).encode() for i in range(n))
